@@ -34,6 +34,18 @@ check('C06',
       'TLA+ transcription + declarative definition, TLC exhaustive evaluation, exhaustive replay into the code, trace validation of recorded calls',
       'DESIGN.md section 5 (C06)', 'match')
 
+check('C05',
+      'TLC computes from the step-by-step transcription of check_output/normalize in Match.tla, for every got of two to three token '
+      'spaces, the set of matching wants under each of the 32 flag sets, and checks the property-level invariants on those rows '
+      '(Reflexive, ExactWhenStrict, MonotonePositive, MonotoneBlankline, DifferentCoreNeverMatches); every (got, want, flags) triple of '
+      'those spaces is evaluated by the real checker.check_output and must equal the row; the monotonicity/reflexivity statements are '
+      're-evaluated on the implementation rows; seeded random longer triples recorded from the code are validated by MatchTrace.tla.',
+      'Trusted: TLC, the token<->text mapping. Spaces: all 13 tokens up to length 2; a wildcard/quote alphabet up to got 3 / want 4; '
+      'thorough adds 9 tokens up to length 3. One colour sequence and one marker spelling stand for their classes. Four exotic '
+      'monotonicity counterexample families are recorded as known findings F8/F13/F14/F15 and carved out of the invariants by signature.',
+      'TLA+ transcription of the normalisation pipeline, TLC exhaustive evaluation with property invariants, exhaustive replay into the code, trace validation',
+      'DESIGN.md section 5 (C05)', 'match')
+
 NOT_YET = ['C01', 'C02', 'C03', 'C04', 'C05', 'C07', 'C08', 'C09', 'C10', 'C11', 'C12', 'C13', 'C14', 'C15', 'C16',
            'C17', 'C18', 'C19', 'C20']
 
